@@ -318,8 +318,12 @@ func removeBanner(data []byte) []byte {
 			}
 			continue
 		}
-		if m := rx.FindSubmatch(line); m != nil {
-			endBanner = m[1]
+		if m := rx.FindSubmatchIndex(line); m != nil {
+			// Banner ends in same line, if delimiter is found again:
+			// banner login ^CAuthorized access only^C
+			if !bytes.Contains(line[m[1]:], line[m[2]:m[1]]) {
+				endBanner = line[m[2]:m[3]]
+			}
 			continue
 		}
 		j += copy(data[j:], line)
